@@ -225,6 +225,9 @@ package wkbcommon
 //@ func (*Encoder).writeLineString(e, ls, srid)
 //@   floats bits
 //@   requires e.w != nil && e.order != nil && len(e.buf) == 16
+//@   modifies e.buf[*]
+//@   callpre writeTypePrefix: arg1 == lineStringType && arg2 == len(ls) && arg3 == srid
+//@   loop 1: exit rangeindex + 1 >= len(ls) || err != nil
 //@   callpre Write: rangeindex >= 0 ==> len(e.buf) == 16 && (e.order == binary.LittleEndian ==> le64(e.buf, 0) == bits(p[0]) && le64(e.buf, 8) == bits(p[1])) && (e.order == binary.BigEndian ==> be64(e.buf, 0) == bits(p[0]) && be64(e.buf, 8) == bits(p[1]))
 //@   loop 1: invariant -1 <= rangeindex && rangeindex < len(ls) && e.w != nil && e.order != nil && len(e.buf) == 16 && e.w == old(e.w) && e.order == old(e.order)
 
@@ -242,6 +245,7 @@ package wkbcommon
 //@ func (*Encoder).writePoint(e, p, srid)
 //@   floats bits
 //@   requires e.w != nil && e.order != nil && len(e.buf) == 16
+//@   modifies e.buf[*]
 //@   callpre Write: len(arg0) == 4 || len(arg0) == 8 || len(arg0) == 16
 //@   callpre Write: len(arg0) == 4 ==> srid == 0 && (e.order == binary.LittleEndian ==> le32(arg0, 0) == int(pointType)) && (e.order == binary.BigEndian ==> be32(arg0, 0) == int(pointType))
 //@   callpre Write: len(arg0) == 8 ==> srid != 0 && (e.order == binary.LittleEndian ==> le32(arg0, 0) == int(pointType | ewkbType) && le32(arg0, 4) == int(uint32(srid))) && (e.order == binary.BigEndian ==> be32(arg0, 0) == int(pointType | ewkbType) && be32(arg0, 4) == int(uint32(srid)))
@@ -251,6 +255,7 @@ package wkbcommon
 // the type prefix of every non-point kind: type word (| EWKB flag), [SRID word], count word
 //@ func (*Encoder).writeTypePrefix(e, t, l, srid)
 //@   requires e.w != nil && e.order != nil && len(e.buf) == 16
+//@   modifies e.buf[*]
 //@   callpre Write: srid == 0 ==> len(arg0) == 8 && (e.order == binary.LittleEndian ==> le32(arg0, 0) == int(t) && le32(arg0, 4) == int(uint32(l))) && (e.order == binary.BigEndian ==> be32(arg0, 0) == int(t) && be32(arg0, 4) == int(uint32(l)))
 //@   callpre Write: srid != 0 ==> len(arg0) == 12 && (e.order == binary.LittleEndian ==> le32(arg0, 0) == int(t | ewkbType) && le32(arg0, 4) == int(uint32(srid)) && le32(arg0, 8) == int(uint32(l))) && (e.order == binary.BigEndian ==> be32(arg0, 0) == int(t | ewkbType) && be32(arg0, 4) == int(uint32(srid)) && be32(arg0, 8) == int(uint32(l)))
 
@@ -269,3 +274,71 @@ package wkbcommon
 // what the encoder stores decodes to what was encoded: for a type code t in 1..7, the stored word
 // t (plain) or t + 2^29 (EWKB) has low nibble t and flag bit 0 resp. 1
 //@ lemma header_word_roundtrip: forall t int :: 1 <= t && t <= 7 ==> t % 16 == t && (t / 536870912) % 2 == 0 && (t + 536870912) % 16 == t && ((t + 536870912) / 536870912) % 2 == 1
+
+// ---------------------------------------------------------------- C01: the encoder's dispatch
+// the order byte comes first (1 little endian, 0 otherwise); every kind is handed, with the caller's
+// srid, to the writer of its own kind; a ring is written as the one-ring polygon holding it and a
+// bound as a one-ring polygon of five vertices
+//@ func (*Encoder).Encode(e, geom, srid)
+//@   requires e.w != nil && e.order != nil && (e.buf == nil || len(e.buf) == 16)
+//@   modifies *e, e.buf[*]
+//@   ensures e.w == old(e.w) && e.order == old(e.order) && (e.buf == nil || len(e.buf) == 16) && (old(e.buf) != nil ==> same(e.buf, old(e.buf)))
+//@   callpre Write: len(arg0) == 1 && (e.order == binary.LittleEndian ==> arg0[0] == 1) && (e.order != binary.LittleEndian ==> arg0[0] == 0)
+//@   callpre writePoint: istype(old(geom), orb.Point) && same(arg1, as(old(geom), orb.Point)) && arg2 == srid
+//@   callpre writeMultiPoint: istype(old(geom), orb.MultiPoint) && same(arg1, as(old(geom), orb.MultiPoint)) && arg2 == srid
+//@   callpre writeLineString: istype(old(geom), orb.LineString) && same(arg1, as(old(geom), orb.LineString)) && arg2 == srid
+//@   callpre writeMultiLineString: istype(old(geom), orb.MultiLineString) && same(arg1, as(old(geom), orb.MultiLineString)) && arg2 == srid
+//@   callpre writePolygon: arg2 == srid && (istype(old(geom), orb.Polygon) || istype(old(geom), orb.Ring) || istype(old(geom), orb.Bound))
+//@   callpre writePolygon: istype(old(geom), orb.Polygon) ==> same(arg1, as(old(geom), orb.Polygon))
+//@   callpre writePolygon: istype(old(geom), orb.Ring) ==> len(arg1) == 1 && same(arg1[0], as(old(geom), orb.Ring))
+//@   callpre writePolygon: istype(old(geom), orb.Bound) ==> len(arg1) == 1 && len(arg1[0]) == 5
+//@   callpre writeMultiPolygon: istype(old(geom), orb.MultiPolygon) && same(arg1, as(old(geom), orb.MultiPolygon)) && arg2 == srid
+//@   callpre writeCollection: istype(old(geom), orb.Collection) && same(arg1, as(old(geom), orb.Collection)) && arg2 == srid
+
+// the multi kinds: type prefix with the member count and the caller's srid, then EVERY member through
+// Encode with srid 0 (the loop is left only after the last member; an error returns at once)
+//@ func (*Encoder).writeMultiPoint(e, mp, srid)
+//@   requires e.w != nil && e.order != nil && len(e.buf) == 16
+//@   modifies *e, e.buf[*]
+//@   ensures e.w == old(e.w) && e.order == old(e.order) && same(e.buf, old(e.buf))
+//@   callpre writeTypePrefix: arg1 == multiPointType && arg2 == len(mp) && arg3 == srid
+//@   callpre Encode: arg2 == 0 && istype(arg1, orb.Point) && same(as(arg1, orb.Point), mp[rangeindex])
+//@   loop 1: invariant -1 <= rangeindex && rangeindex < len(mp) && e.w == old(e.w) && e.order == old(e.order) && same(e.buf, old(e.buf))
+//@   loop 1: exit rangeindex + 1 >= len(mp) || err != nil
+//@ func (*Encoder).writeMultiLineString(e, mls, srid)
+//@   requires e.w != nil && e.order != nil && len(e.buf) == 16
+//@   modifies *e, e.buf[*]
+//@   ensures e.w == old(e.w) && e.order == old(e.order) && same(e.buf, old(e.buf))
+//@   callpre writeTypePrefix: arg1 == multiLineStringType && arg2 == len(mls) && arg3 == srid
+//@   callpre Encode: arg2 == 0 && istype(arg1, orb.LineString) && same(as(arg1, orb.LineString), mls[rangeindex])
+//@   loop 1: invariant -1 <= rangeindex && rangeindex < len(mls) && e.w == old(e.w) && e.order == old(e.order) && same(e.buf, old(e.buf))
+//@   loop 1: exit rangeindex + 1 >= len(mls) || err != nil
+//@ func (*Encoder).writeMultiPolygon(e, mp, srid)
+//@   requires e.w != nil && e.order != nil && len(e.buf) == 16
+//@   modifies *e, e.buf[*]
+//@   ensures e.w == old(e.w) && e.order == old(e.order) && same(e.buf, old(e.buf))
+//@   callpre writeTypePrefix: arg1 == multiPolygonType && arg2 == len(mp) && arg3 == srid
+//@   callpre Encode: arg2 == 0 && istype(arg1, orb.Polygon) && same(as(arg1, orb.Polygon), mp[rangeindex])
+//@   loop 1: invariant -1 <= rangeindex && rangeindex < len(mp) && e.w == old(e.w) && e.order == old(e.order) && same(e.buf, old(e.buf))
+//@   loop 1: exit rangeindex + 1 >= len(mp) || err != nil
+//@ func (*Encoder).writeCollection(e, c, srid)
+//@   requires e.w != nil && e.order != nil && len(e.buf) == 16
+//@   modifies *e, e.buf[*]
+//@   ensures e.w == old(e.w) && e.order == old(e.order) && same(e.buf, old(e.buf))
+//@   callpre writeTypePrefix: arg1 == geometryCollectionType && arg2 == len(c) && arg3 == srid
+//@   callpre Encode: arg2 == 0 && arg1 == c[rangeindex]
+//@   loop 1: invariant -1 <= rangeindex && rangeindex < len(c) && e.w == old(e.w) && e.order == old(e.order) && same(e.buf, old(e.buf))
+//@   loop 1: exit rangeindex + 1 >= len(c) || err != nil
+// a polygon: prefix with the ring count, then per ring its point count word and 16 bytes per point
+//@ func (*Encoder).writePolygon(e, p, srid)
+//@   floats bits
+//@   requires e.w != nil && e.order != nil && len(e.buf) == 16
+//@   modifies e.buf[*]
+//@   callpre writeTypePrefix: arg1 == polygonType && arg2 == len(old(p)) && arg3 == srid
+//@   callpre Write: len(arg0) == 4 || len(arg0) == 16
+//@   callpre Write: len(arg0) == 4 ==> (e.order == binary.LittleEndian ==> le32(arg0, 0) == int(uint32(len(r)))) && (e.order == binary.BigEndian ==> be32(arg0, 0) == int(uint32(len(r))))
+//@   callpre Write: len(arg0) == 16 ==> (e.order == binary.LittleEndian ==> le64(arg0, 0) == bits(r[rangeindex][0]) && le64(arg0, 8) == bits(r[rangeindex][1])) && (e.order == binary.BigEndian ==> be64(arg0, 0) == bits(r[rangeindex][0]) && be64(arg0, 8) == bits(r[rangeindex][1]))
+//@   loop 1: invariant -1 <= rangeindex && rangeindex < len(old(p)) && e.w != nil && e.order != nil && len(e.buf) == 16 && e.w == old(e.w) && e.order == old(e.order)
+//@   loop 2: invariant -1 <= rangeindex && rangeindex < len(r) && e.w != nil && e.order != nil && len(e.buf) == 16 && e.w == old(e.w) && e.order == old(e.order)
+//@   loop 1: exit rangeindex + 1 >= len(old(p)) || err != nil
+//@   loop 2: exit rangeindex + 1 >= len(r) || err != nil
